@@ -622,6 +622,14 @@ func containedInBinaryArray(container [][]byte, bin []byte) bool {
 	return false
 }
 
+// sortBinaries keeps the elements of a binary set in one canonical order: a set has no
+// order of its own, so two sets with the same elements must be the same value
+func sortBinaries(binaries [][]byte) {
+	sort.Slice(binaries, func(i, j int) bool {
+		return bytes.Compare(binaries[i], binaries[j]) < 0
+	})
+}
+
 func removeBinaries(container [][]byte, others [][]byte) [][]byte {
 	out := [][]byte{}
 
@@ -701,6 +709,8 @@ func (bs *BinarySet) addBinarySetValues(binaryValues [][]byte) {
 
 		bs.Value = append(bs.Value, bin)
 	}
+
+	sortBinaries(bs.Value)
 }
 
 // Add if the obj is a binary it adds the value to Set
@@ -717,6 +727,7 @@ func (bs *BinarySet) Add(obj Object) Object {
 		bin, ok := obj.(*Binary)
 		if ok && !bs.Contains(bin) {
 			bs.Value = append(bs.Value, bin.Value)
+			sortBinaries(bs.Value)
 		}
 
 		return UNDEFINED
